@@ -84,7 +84,8 @@ def parseEvent (s : String) : Option Sim.Event :=
     let d ← fromHex d
     pure (.backendBytes j d)
   | ["X", j] => do pure (.backendClose (← j.toNat?))
-  | ["E"] => some .expire
+  | ["E"] => some (.expire 1000000000)
+  | ["E", n] => n.toNat?.map (fun k => .expire k)
   | ["K", p] => do pure (.poolRemove (← p.toNat?))
   | _ => none
 
